@@ -206,10 +206,36 @@ def explore(chk):
             for nm, I, M in (("dfxp", I1, M1), ("sami", I2, M2), ("webvtt", I3, M3)):
                 if I != M:
                     chk.correspondence_failure(dict(case, impl=str(I)[:600], model=str(M)[:600]), "%s text function with style nodes: implementation and model differ" % nm)
+    # ---- spans that take their style from a class: the class is looked up in the caption set being written
+    from pycaption import CaptionSet, CaptionList, Caption, CaptionNode
+    for k_ in range(40 if chk.tier == "quick" else 1500):
+        names = rng.sample(["emph", "loud", "aside"], rng.randint(1, 2))
+        defs = {nm: {a: True for a in rng.sample(["italics", "bold", "underline"], rng.randint(0, 3))} for nm in ["emph", "loud", "aside"]}
+        for nm in defs:
+            if rng.random() < 0.3:
+                defs[nm]["color"] = "yellow"
+        content = {"classes": names} if len(names) > 1 or rng.random() < 0.5 else {"class": names[0]}
+        words = [rng.choice(WORDS) for _ in range(3)]
+        nodes = [CaptionNode.create_text(words[0] + " "), CaptionNode.create_style(True, dict(content)), CaptionNode.create_text(words[1]),
+                 CaptionNode.create_style(False, dict(content)), CaptionNode.create_text(" " + words[2])]
+        cs = CaptionSet({"en-US": CaptionList([Caption(1000000, 2500000, nodes)])}, styles={k: dict(v) for k, v in defs.items()})
+        active = frozenset(x for nm in names for x, key in (("i", "italics"), ("b", "bold"), ("u", "underline")) if defs[nm].get(key))
+        want = [(ch, frozenset()) for ch in words[0]] + [(ch, active) for ch in words[1]] + [(ch, frozenset()) for ch in words[2]]
+        case = {"classes": names, "definitions": defs, "words": words}
+        chk.case(key=json.dumps(case, sort_keys=True), nontrivial=True); chk.count("class_spans")
+        try:
+            vtt = pycaption.WebVTTWriter().write(cs)
+        except Exception as e:
+            chk.property_failure(dict(case, error=repr(e)[:300]), "webvtt writer raised on a span styled by a class"); continue
+        cue = vtt.split("\n", 3)[3] if vtt.count("\n") >= 3 else ""
+        got, bal = flags_of_markup(cue, lambda d: set())
+        if not bal or got != want:
+            chk.property_failure(dict(case, cue=cue[:400], parsed=str(got)[:400]), "webvtt writer: a span styled by a class is not wrapped in the i/b/u tags its class asks for in this caption set")
     # ---- SCC reader outputs: balanced style nodes
     from pcv.props import scc_common as sc
-    for _ in range(100 if chk.tier == "quick" else 3000):
-        p = sccgen.gen_popon(rng, rich=True, max_len=16)
+    NS = 100 if chk.tier == "quick" else 3000
+    for k_ in range(NS + NS // 4):
+        p = sccgen.gen_popon(rng, rich=True, max_len=16) if k_ < NS else sccgen.italic_rows_program(rng, doubled=bool(k_ % 2))
         I = sc.impl_read(p["text"], p["offset"])
         chk.case(key=p["text"], nontrivial=True); chk.count("scc")
         if I[0] == "ok":
